@@ -142,7 +142,7 @@ def unary(t, full):
 
 def universe(tier):
     L1 = [prim(p) for p in PRIMS] + [prim(n) for n in NZ] + [UNIT, PH_U8, PH_STR, RFULL, STRING, BOXSTR]
-    derived_leaves = [inst(n) for n in ["P1", "Z0", "Z16", "P64", "NT", "T3", "ZN", "ZA", "ZB", "ZR", "ZT3", "NT16", "EW12", "EZ", "EU", "ED", "D1", "D1Z", "DN", "DV", "DT", "DU", "DZ", "RAW", "E1", "E2", "N1"]]
+    derived_leaves = [inst(n) for n in ["P1", "Z0", "Z16", "P64", "NT", "T3", "ZN", "ZA", "ZB", "ZR", "ZT3", "NT16", "EW12", "EZ", "EU", "ED", "EDZ", "EDM", "D1", "D1Z", "DN", "DV", "DT", "DU", "DZ", "RAW", "E1", "E2", "N1"]]
     L2 = [prim(p) for p in ["u8", "u16", "u32", "u64", "u128", "bool", "char", "f64"]] + [UNIT, prim("NonZeroU16"), STRING, PH_U8]
     L2 += [inst(n) for n in ["P1", "Z0", "Z16", "D1", "E1", "T3"]]
     terms = []
@@ -275,7 +275,7 @@ impl<A: AsRef<[u64]>> Drop for DR<A> {
     }
 }
 impl vcore::dom::Dom for DR<Vec<u64>> {
-    fn ty() -> Ty { Ty::Adt(std::rc::Rc::new(Adt { name: "DR".to_string(), is_enum: false, zero: false, reprs: vec![], consts: vec![], variants: vec![Variant { name: "DR".to_string(), style: VStyle::Named, fields: vec![Field { name: "data".to_string(), ty: <Vec<u64> as vcore::dom::Dom>::ty(), is_param: true }] }] })) }
+    fn ty() -> Ty { Ty::Adt(std::rc::Rc::new(Adt { name: "DR".to_string(), is_enum: false, zero: false, reprs: vec![], consts: vec![], variants: vec![Variant { name: "DR".to_string(), style: VStyle::Named, fields: vec![Field { name: "data".to_string(), ty: <Vec<u64> as vcore::dom::Dom>::ty(), is_param: true }], disc: None }] })) }
     fn values(cx: &mut vcore::dom::ValCx) -> Vec<Self> { <Vec<u64> as vcore::dom::Dom>::values(cx).into_iter().map(|d| DR { data: d }).collect() }
     fn to_val(&self) -> Val { Val::Struct(vec![vcore::dom::Dom::to_val(&self.data)]) }
     fn scale(&self, k: usize) -> Self { DR { data: vcore::dom::Dom::scale(&self.data, k) } }
